@@ -8,6 +8,12 @@ use opcua::core::comms::tcp_types::HelloMessage;
 use opcua::core::supported_message::SupportedMessage;
 use opcua::server::comms::tcp_transport::TcpTransport;
 use opcua::types::*;
+use bytes::BytesMut;
+use opcua::core::comms::tcp_codec::{Message, TcpCodec};
+use parking_lot::RwLock;
+use std::sync::Arc;
+use tokio::io::{AsyncReadExt, AsyncWriteExt};
+use tokio_util::codec::Decoder;
 
 pub struct C15;
 pub static P: C15 = C15;
@@ -83,6 +89,107 @@ pub fn response_name(m: &SupportedMessage) -> String {
     }
 }
 
+/// bytes of one frame given as dotted tokens (`hel.valid`, `ack`, `opn.issue.c:s:r`, `msg.ge.c:s:r`, `clo.c:s:r`)
+fn frame_bytes(spec: &str) -> Option<Vec<u8>> {
+    let p: Vec<&str> = spec.split('.').collect();
+    let enc = |m: &dyn Fn(&mut std::io::Cursor<Vec<u8>>)| {
+        let mut c = std::io::Cursor::new(Vec::new());
+        m(&mut c);
+        c.into_inner()
+    };
+    match p.as_slice() {
+        ["hel", k] => {
+            let mut h = hello_of(k)?;
+            // HelloMessage::new computed the size before a protocol version change; it is unaffected
+            h.message_header.message_size = h.byte_len() as u32;
+            Some(enc(&|c| {
+                h.encode(c).unwrap();
+            }))
+        }
+        ["ack"] => {
+            let e = opcua::core::comms::tcp_types::ErrorMessage::from_status_code(StatusCode::BadCommunicationError);
+            Some(enc(&|c| {
+                e.encode(c).unwrap();
+            }))
+        }
+        ["opn", ty, ci] => {
+            let c = c12::parse_ci(ci)??;
+            if *ty != "issue" && *ty != "renew" {
+                return None;
+            }
+            Some(c12::open_request_chunks(c.seq, c.req, c.chan, *ty == "renew").pop()?.data)
+        }
+        ["msg", k, ci] => Some(service_chunk(k, c12::parse_ci(ci)??)?.data),
+        ["clo", ci] => Some(service_chunk("clo", c12::parse_ci(ci)??)?.data),
+        _ => None,
+    }
+}
+
+/// The REAL connection: `TcpTransport::run` on one end of a loopback socket, the frames written to
+/// the other end one at a time; after each frame the client waits for one response frame or for
+/// the server to close the connection.
+async fn sock_run(frames: Vec<Vec<u8>>) -> Vec<String> {
+    let listener = tokio::net::TcpListener::bind("127.0.0.1:0").await.expect("bind");
+    let addr = listener.local_addr().unwrap();
+    let mut client = tokio::net::TcpStream::connect(addr).await.expect("connect");
+    let (server_sock, _) = listener.accept().await.expect("accept");
+    let transport = Arc::new(RwLock::new(c12::new_transport()));
+    TcpTransport::run(transport.clone(), server_sock, 1000.0);
+    let mut codec = TcpCodec::new(DecodingOptions::default());
+    let sc = c11::client_channel(0, 0, true);
+    let mut buf = BytesMut::new();
+    let mut outs = Vec::new();
+    let mut eof = false;
+    for f in frames {
+        if eof || client.write_all(&f).await.is_err() {
+            eof = true;
+            outs.push("eof".to_string());
+            continue;
+        }
+        loop {
+            match codec.decode(&mut buf) {
+                Ok(Some(Message::Acknowledge(_))) => {
+                    outs.push("ack".to_string());
+                    break;
+                }
+                Ok(Some(Message::Chunk(c))) => {
+                    let req = c.chunk_info(&sc).map(|i| i.sequence_header.request_id).unwrap_or(0);
+                    match Chunker::decode(&[c], &sc, None) {
+                        Ok(m) => outs.push(format!("{} req={}", response_name(&m), req)),
+                        Err(_) => outs.push("undecodable".to_string()),
+                    }
+                    break;
+                }
+                Ok(Some(_)) => {
+                    outs.push("errframe".to_string());
+                    break;
+                }
+                Ok(None) => {}
+                Err(_) => {
+                    outs.push("garbage".to_string());
+                    eof = true;
+                    break;
+                }
+            }
+            match tokio::time::timeout(std::time::Duration::from_secs(10), client.read_buf(&mut buf)).await {
+                Err(_) => {
+                    outs.push("timeout".to_string());
+                    eof = true;
+                    break;
+                }
+                Ok(Ok(0)) | Ok(Err(_)) => {
+                    outs.push("eof".to_string());
+                    eof = true;
+                    break;
+                }
+                Ok(Ok(_)) => {}
+            }
+        }
+    }
+    drop(client);
+    outs
+}
+
 // ------------------------------------------------------------------------------------------------
 
 fn gen_ci(rng: &mut Rng, chan: u64, seq: u64) -> String {
@@ -145,9 +252,12 @@ impl Prop for C15 {
                 }
             }
         }
-        for _ in 0..n {
+        for i in 0..n {
             out.push("reset".to_string());
             let (mut chan, mut seq, mut opened) = (0u64, 1u64, false);
+            // one case in 10 goes over a real loopback socket through TcpTransport::run
+            let over_socket = i % 10 == 7;
+            let start = out.len();
             match rng.below(3) {
                 0 => {
                     // orderly: HEL, OPN, then mostly services
@@ -169,6 +279,10 @@ impl Prop for C15 {
                         out.push(gen_frame(rng, &[4, 1, 3, 2, 4, 1, 2], &mut chan, &mut seq, &mut opened));
                     }
                 }
+            }
+            if over_socket {
+                let frames: Vec<String> = out.drain(start..).map(|l| l.replace(' ', ".")).collect();
+                out.push(format!("sock {}", frames.join(",")));
             }
         }
     }
@@ -227,6 +341,53 @@ impl Runner for R {
     fn step(&mut self, toks: &[&str]) -> (String, Verdict) {
         if toks == ["reset"] {
             return ("ok".to_string(), Verdict::Ok);
+        }
+        if let ["sock", specs] = toks {
+            let mut frames = Vec::new();
+            for sp in specs.split(',') {
+                match frame_bytes(sp) {
+                    Some(f) => frames.push(f),
+                    None => return ("bad-op".to_string(), Verdict::Ok),
+                }
+            }
+            let rt = tokio::runtime::Builder::new_current_thread().enable_all().build().unwrap();
+            let outs = rt.block_on(sock_run(frames));
+            drop(rt);
+            // the property on what came back over the socket
+            let (mut acked, mut opened, mut clo) = (false, false, false);
+            let mut v = Verdict::Ok;
+            for (sp, o) in specs.split(',').zip(outs.iter()) {
+                let class = if !acked { "before-hello" } else if clo { "after-close" } else if !opened { "before-open" } else { "open" };
+                if o == "timeout" || o == "garbage" || o == "undecodable" || o == "errframe" {
+                    v = Verdict::fail("socket_protocol", class, format!("{} -> {}", sp, o));
+                    break;
+                }
+                if o != "eof" {
+                    if clo {
+                        v = Verdict::fail("nothing_after_close", class, format!("{} answered with {}", sp, o));
+                        break;
+                    }
+                    if !acked && o != "ack" {
+                        v = Verdict::fail("only_hello_first", class, format!("{} answered with {}", sp, o));
+                        break;
+                    }
+                    if o.starts_with("service") && !opened {
+                        v = Verdict::fail("no_service_before_open", class, format!("{} answered with {}", sp, o));
+                        break;
+                    }
+                }
+                if o == "ack" {
+                    acked = true;
+                }
+                if o.starts_with("opn") {
+                    opened = true;
+                }
+                if sp.starts_with("clo") && acked {
+                    clo = true;
+                }
+            }
+            let names: Vec<String> = outs.iter().map(|o| o.replace(' ', "_")).collect();
+            return (format!("ok [{}]", names.join(",")), v);
         }
         let frame = toks.join(" ");
         // build the frame first (bad-op must not depend on the state)
